@@ -611,6 +611,8 @@ func pickPaths(rng *rand.Rand, pool []string, n int) []string {
 	return out
 }
 
+var labelNameRe = regexp.MustCompile(`^[a-z][a-z0-9_]*$`)
+
 // genCase builds one configuration and its events.
 // class selects the selection shapes of the masks:
 //
@@ -674,15 +676,23 @@ func genCase(rng *rand.Rand, id int, class string, nEvents int) *testCase {
 		tc.trees = append(tc.trees, t)
 		tc.Events = append(tc.Events, encodeJSON(t, rng))
 	}
-	// metric labels: a top-level key of the events (value after masking must be used)
-	if rng.Intn(4) == 0 {
-		k := tc.trees[rng.Intn(len(tc.trees))].Keys[0]
-		tc.Config.AppliedMetricLabels = []string{k}
+	// metric labels: a top-level key of the events (value after masking must be
+	// used); the key must be a valid metric label name
+	labelKey := func() []string {
+		t := tc.trees[rng.Intn(len(tc.trees))]
+		k := t.Keys[rng.Intn(len(t.Keys))]
+		if !labelNameRe.MatchString(k) {
+			return nil
+		}
+		return []string{k}
+	}
+	if rng.Intn(3) == 0 {
+		tc.Config.AppliedMetricLabels = labelKey()
 	}
 	for i := range tc.Config.Masks {
 		m := &tc.Config.Masks[i]
-		if m.MetricName != "" && rng.Intn(3) == 0 {
-			m.MetricLabels = []string{tc.trees[rng.Intn(len(tc.trees))].Keys[0]}
+		if m.MetricName != "" && rng.Intn(2) == 0 {
+			m.MetricLabels = labelKey()
 		}
 	}
 	// field lists
